@@ -229,35 +229,54 @@ func writerWriteRules(c *Ctx, prop string) {
 			fin writerFinal
 		}
 		var out []rec
+		var delivered int64 // bytes the source handed over on this path
+		var flushed int64   // bytes that left the buffer through FlushFragment
+		deliveredOf := map[*fold.Path]int64{}
 		m.Models["invoke:(io.Reader).Read"] = func(cl *fold.Call) fold.Val {
 			mm := cl.M
 			mm.Emit(fold.Effect{Kind: "call", Name: "src.Read", Args: cl.Args[1:]})
-			opts := 3
+			opts := 5
 			if cl.Seq >= 3 {
-				opts = 2
+				opts = 4
 			}
-			k := mm.Choose(fmt.Sprintf("src%d", cl.Seq), opts) // 0 EOF, 1 error, 2 data
+			// 0 EOF, 1 error, 2 one byte together with EOF, 3 one byte together with an error, 4 data
+			k := mm.Choose(fmt.Sprintf("src%d", cl.Seq), opts)
 			switch k {
 			case 0:
 				return fold.Tuple{fold.K(0), fold.Sym{Name: "global:io.EOF", NonNil: true}}
 			case 1:
 				return fold.Tuple{fold.K(0), fold.Sym{Name: "src-error", NonNil: true}}
+			case 2:
+				delivered++
+				return fold.Tuple{fold.K(1), fold.Sym{Name: "global:io.EOF", NonNil: true}}
+			case 3:
+				delivered++
+				return fold.Tuple{fold.K(1), fold.Sym{Name: "src-error", NonNil: true}}
 			}
 			l := fold.LenOf(cl.Args[1])
 			// fill the whole slice or one byte
 			if mm.Choose(fmt.Sprintf("src%d.full", cl.Seq), 2) == 1 {
+				if l.IsConst() {
+					delivered += l.Const()
+				} else {
+					delivered = -1 << 40
+				}
 				return fold.Tuple{l, fold.Nil{}}
 			}
+			delivered++
 			return fold.Tuple{fold.K(1), fold.Nil{}}
 		}
+		_ = flushed
 		paths := m.Explore(f, func(mm *fold.Machine) []fold.Val {
 			cfg = writerCfg{rawLen: 16, offset: 2, op: 1}
+			delivered = 0
 			cfg.n = []int{0, 4, 14}[mm.Choose("n", 3)]
 			cfg.noFlush = mm.Choose("noflush", 2) == 1
 			cfg.sticky = mm.Choose("sticky", 2) == 1
 			obj, _ = newWriterObj(mm, L, cfg)
 			return []fold.Val{fold.Ref{O: obj}, fold.Iface{V: fold.Sym{Name: "src", NonNil: true}}}
 		}, func(mm *fold.Machine, p *fold.Path) {
+			deliveredOf[p] = delivered
 			out = append(out, rec{cfg: cfg, p: p, fin: writerFinalOf(mm, obj, L)})
 		})
 		c.R.AddCells(len(paths))
@@ -276,6 +295,22 @@ func writerWriteRules(c *Ctx, prop string) {
 			}
 			e := c.errName(ret[1])
 			desc := "[" + r.cfg.String() + " " + r.p.ChoiceString() + "]"
+			// accounting: every byte the source handed over is counted in the result and in the buffer,
+			// also when it arrives together with io.EOF or an error
+			if d := deliveredOf[r.p]; !r.cfg.sticky && d >= 0 {
+				if got := fold.Show(ret[0]); got != fmt.Sprint(d) {
+					problems = append(problems, fmt.Sprintf("ReadFrom reports %s bytes although the source handed over %d (bytes that arrive together with io.EOF or an error are part of the message) %s", got, d, desc))
+				}
+				var out int64
+				for _, ff := range r.p.Calls("FlushFragment") {
+					if k, ok := ff.Args[0].(fold.Int); ok && k.IsConst() {
+						out += k.Const()
+					}
+				}
+				if len(r.p.Calls("Grow")) == 0 && r.fin.n != fmt.Sprint(int64(r.cfg.n)+d-out) {
+					problems = append(problems, fmt.Sprintf("after ReadFrom %s bytes are buffered, want %d = %d before + %d read - %d flushed %s", r.fin.n, int64(r.cfg.n)+d-out, r.cfg.n, d, out, desc))
+				}
+			}
 			emits := len(r.p.Calls("WriteThrough")) + len(r.p.Calls("FlushFragment")) + len(r.p.Calls("flushFragment"))
 			if r.cfg.sticky && !sticky {
 				continue
@@ -293,9 +328,9 @@ func writerWriteRules(c *Ctx, prop string) {
 			ended := ""
 			for i := 1; i <= 3; i++ {
 				switch r.p.Chose(fmt.Sprintf("src%d", i)) {
-				case 0:
+				case 0, 2:
 					ended = "eof"
-				case 1:
+				case 1, 3:
 					ended = "error"
 				}
 				if ended != "" {
